@@ -30,7 +30,7 @@ fn script(c: &Case) -> String {
         let env = arith::STD_ENV_SH.trim_end();
         s.push_str(&format!("( {env}; r=$(( {t} )); echo \"{k} exp:$r {DUMP}\" ) 2>/dev/null || echo \"{k} exp:ERR\"\n"));
         s.push_str(&format!("( {env}; (( {t} )); echo \"{k} cmd:$? {DUMP}\" ) 2>/dev/null || echo \"{k} cmd:ERR\"\n"));
-        s.push_str(&format!("( {env}; let \"{t}\"; echo \"{k} let:$? {DUMP}\" ) 2>/dev/null || echo \"{k} let:ERR\"\n"));
+        s.push_str(&format!("( {env}; let \" {t}\"; echo \"{k} let:$? {DUMP}\" ) 2>/dev/null || echo \"{k} let:ERR\"\n"));
         // `<<` inside `${…}` is mis-tokenised by brush as a here-document operator (known finding
         // C06-shift-in-substring-offset); that shape is exercised by C06, not here
         if !t.contains("<<") && arith::facts(e).side_effects == 0 {
